@@ -23,6 +23,7 @@ import (
 	"encoding/json"
 	"errors"
 	"fmt"
+	"io"
 	"math/rand"
 	"net"
 	"net/http"
@@ -36,7 +37,7 @@ import (
 )
 
 type NStep struct {
-	Op    string `json:"op"` // send | feed | ewc | scl
+	Op    string `json:"op"` // send | feed | ewc | scl | open | wr | cls
 	Side  string `json:"side"`
 	Comp  bool   `json:"comp"`
 	On    bool   `json:"on"`
@@ -199,6 +200,13 @@ type negRun struct {
 	dec        map[string]*wire.Decoder
 	fed        map[string]int // bytes of the end's log already fed to the decoder
 	rng        *rand.Rand
+	open       map[string]*openMsg // side -> message writer obtained by an "open" step and not closed yet
+}
+
+// openMsg is a data message being written through NextWriter.
+type openMsg struct {
+	w   io.WriteCloser
+	msg []byte // what the application has written to w so far
 }
 
 func RunNegotiate(p *NProg) (evs []Ev) {
@@ -214,7 +222,7 @@ func RunNegotiate(p *NProg) (evs []Ev) {
 			}
 			done <- out
 		}()
-		r := &negRun{p: p, dec: map[string]*wire.Decoder{"c": {}, "s": {}}, fed: map[string]int{}, rng: rand.New(rand.NewSource(int64(p.Seed)))}
+		r := &negRun{p: p, dec: map[string]*wire.Decoder{"c": {}, "s": {}}, fed: map[string]int{}, open: map[string]*openMsg{}, rng: rand.New(rand.NewSource(int64(p.Seed)))}
 		r.exec(&out)
 	}()
 	select {
@@ -349,7 +357,44 @@ func (r *negRun) exec(out *[]Ev) {
 		}
 		switch st.Op {
 		case "send":
-			*out = append(*out, r.send(i, st, conn))
+			*out = append(*out, r.send(i, st, conn)...)
+		case "open":
+			if r.open[st.Side] != nil {
+				*out = append(*out, Ev{"e": "BADSTEP", "i": i})
+				return
+			}
+			r.newFrames(st.Side) // what was written before is not part of this message
+			w, err := conn.NextWriter(websocket.TextMessage)
+			if err == nil {
+				r.open[st.Side] = &openMsg{w: w}
+			}
+			*out = append(*out, Ev{"e": "Open", "side": st.Side, "err": err != nil, "errtxt": errText(err)})
+		case "wr":
+			om := r.open[st.Side]
+			if om == nil {
+				*out = append(*out, Ev{"e": "BADSTEP", "i": i})
+				return
+			}
+			part := wire.TextPay(r.p.Seed, 2000+i, st.N)
+			_, err := om.w.Write(part)
+			if err == nil {
+				om.msg = append(om.msg, part...)
+			}
+			*out = append(*out, Ev{"e": "Wr", "side": st.Side, "n": st.N, "err": err != nil, "errtxt": errText(err)})
+		case "cls":
+			om := r.open[st.Side]
+			if om == nil {
+				*out = append(*out, Ev{"e": "BADSTEP", "i": i})
+				return
+			}
+			delete(r.open, st.Side)
+			werr := om.w.Close()
+			msgs := splitMessages(r.newFrames(st.Side))
+			var fr []wire.Frame
+			if len(msgs) > 0 {
+				fr = msgs[0]
+			}
+			*out = append(*out, r.msgEv("Cls", st.Side, om.msg, fr, werr, len(msgs) == 1, Ev{"implicit": false}))
 		case "feed":
 			*out = append(*out, r.feed(i, st, conn))
 		case "ewc":
@@ -393,35 +438,41 @@ func (r *negRun) newFrames(side string) []wire.Frame {
 	return fr
 }
 
-func (r *negRun) send(i int, st NStep, conn *websocket.Conn) Ev {
-	msg := wire.TextPay(r.p.Seed, i, st.N)
-	r.newFrames(st.Side) // control frames written meanwhile are not part of this message
-	werr := conn.WriteMessage(websocket.TextMessage, msg)
-	frames := r.newFrames(st.Side)
-	rsv1, wireok := false, false
-	var payload []byte
-	started, finished := false, false
+// splitMessages groups the data frames of a decoded frame sequence into
+// messages (control frames are skipped; an unfinished message is dropped).
+func splitMessages(frames []wire.Frame) [][]wire.Frame {
+	var out [][]wire.Frame
+	var cur []wire.Frame
 	for _, f := range frames {
 		if f.Op >= 8 {
 			continue
 		}
-		if !started {
-			if f.Op != 1 {
-				break
-			}
-			started = true
-			rsv1 = f.R1
-		} else if f.Op != 0 || f.R1 {
-			started = false
-			break
-		}
-		payload = append(payload, f.Payload...)
+		cur = append(cur, f)
 		if f.Fin {
-			finished = true
-			break
+			out = append(out, cur)
+			cur = nil
 		}
 	}
-	if started && finished {
+	return out
+}
+
+// msgEv reports one data message written by a library endpoint: the RSV1 bit
+// of its first frame, whether its frames decode (inflate when RSV1 is set) to
+// what the application wrote, and what the peer endpoint's ReadMessage
+// returned. alone = the frames of exactly this message were on the wire.
+func (r *negRun) msgEv(kind, side string, msg []byte, frames []wire.Frame, werr error, alone bool, extra Ev) Ev {
+	rsv1, wireok := false, false
+	var payload []byte
+	wellformed := alone && len(frames) > 0 && frames[0].Op == 1
+	for k, f := range frames {
+		if k == 0 {
+			rsv1 = f.R1
+		} else if f.Op != 0 || f.R1 {
+			wellformed = false
+		}
+		payload = append(payload, f.Payload...)
+	}
+	if wellformed {
 		if rsv1 {
 			if plain, err := wire.Inflate(payload); err == nil && bytes.Equal(plain, msg) {
 				wireok = true
@@ -431,7 +482,7 @@ func (r *negRun) send(i int, st NStep, conn *websocket.Conn) Ev {
 		}
 	}
 	recv := "na"
-	if peer := r.conn(other(st.Side)); peer != nil {
+	if peer := r.conn(other(side)); peer != nil {
 		t, b, err := peer.ReadMessage()
 		if err == nil && t == websocket.TextMessage && bytes.Equal(b, msg) {
 			recv = "ok"
@@ -439,8 +490,41 @@ func (r *negRun) send(i int, st NStep, conn *websocket.Conn) Ev {
 			recv = "err"
 		}
 	}
-	return Ev{"e": "Send", "side": st.Side, "n": st.N, "rsv1": rsv1, "wireok": wireok, "recv": recv, "werr": werr != nil,
+	ev := Ev{"e": kind, "side": side, "n": len(msg), "rsv1": rsv1, "wireok": wireok, "recv": recv, "werr": werr != nil,
 		"nframes": len(frames)}
+	for k, v := range extra {
+		ev[k] = v
+	}
+	return ev
+}
+
+// send performs one WriteMessage. A message writer still open on this side is
+// closed implicitly by it (reported as a Cls event before the Send event).
+func (r *negRun) send(i int, st NStep, conn *websocket.Conn) []Ev {
+	msg := wire.TextPay(r.p.Seed, i, st.N)
+	om := r.open[st.Side]
+	delete(r.open, st.Side)
+	if om == nil {
+		r.newFrames(st.Side) // control frames written meanwhile are not part of this message
+	}
+	werr := conn.WriteMessage(websocket.TextMessage, msg)
+	msgs := splitMessages(r.newFrames(st.Side))
+	want := 1
+	var out []Ev
+	if om != nil {
+		want = 2
+		var fr []wire.Frame
+		if len(msgs) > 0 {
+			fr = msgs[0]
+			msgs = msgs[1:]
+		}
+		out = append(out, r.msgEv("Cls", st.Side, om.msg, fr, nil, len(msgs)+1 == want, Ev{"implicit": true}))
+	}
+	var fr []wire.Frame
+	if len(msgs) > 0 {
+		fr = msgs[0]
+	}
+	return append(out, r.msgEv("Send", st.Side, msg, fr, werr, len(msgs) == 1, nil))
 }
 
 var feedVariants = []string{wire.DefFixed, "std6", wire.DefStored, "std1", wire.DefFixed2}
